@@ -1172,7 +1172,10 @@ def to_shootnew(rng, spec, side, tname, p_unexport=0.75, allow_setonly=False):
         if rng.random() < p_unexport:
             f["name"] = unexport(f["name"])
             r = rng.random()
-            if r < 0.55:
+            structish = f["ty"][0] in ("ptr", "slice") or (f["ty"][0] == "named" and f["ty"][1] in ("src", "dst"))
+            # (keeps most pairs inside the guard of C15: a field that is only settable through the constructor must
+            #  not need a tag in FromX [K_map_ctor_from_tag] nor a sub-struct mapping [K_map_ctor_no_submap])
+            if r < 0.55 or ((f["tag"] or structish) and rng.random() < 0.9):
                 f["acc"] = "both"
             elif r < 0.8 or not allow_setonly:
                 f["acc"] = "get"
